@@ -162,10 +162,20 @@ def loc(node) -> str:
 
 
 def unparse(node) -> str:
+    # memoised on the node: the abstract interpreter and the guard extraction ask for the same texts many thousand times
     try:
-        return ast.unparse(node)
+        return node._unp
+    except AttributeError:
+        pass
+    try:
+        s = ast.unparse(node)
     except Exception:  # pragma: no cover
-        return "<?>"
+        s = "<?>"
+    try:
+        node._unp = s
+    except Exception:  # pragma: no cover
+        pass
+    return s
 
 
 def short(node, n=90) -> str:
